@@ -32,7 +32,7 @@ def run_one(d):
 
 def main():
     dirs = sys.argv[1:] or sorted(x for x in os.listdir(SEEDED) if re.match(r"C\d\d-[A-Z]$", x))
-    with ThreadPool(4) as pool:
+    with ThreadPool(6) as pool:
         rows = pool.map(run_one, dirs)
     lines = ["# Seeded changes and the checks that catch them", "",
              "Written by tools/seeded.py (quick tier, VERIF_SEED=1). `caught` = the check exits 1 with a VIOLATION line.", "",
